@@ -6,6 +6,7 @@ package parser
 import (
 	"errors"
 	"fmt"
+	"strconv"
 
 	"github.com/theory/sqljson/path/ast"
 )
@@ -25,4 +26,39 @@ func Parse(path string) (*ast.AST, error) {
 	}
 
 	return lexer.result, nil
+}
+
+// The grammar actions build number and regex nodes through the
+// functions below, which report unrepresentable input as a parse error
+// instead of letting the ast constructors panic.
+
+// newInteger returns an [ast.IntegerNode] for lit. If lit does not fit an
+// int64 it records an error and returns a placeholder.
+func newInteger(lex pathLexer, lit string) ast.Node {
+	if _, err := strconv.ParseInt(lit, 0, 64); err != nil {
+		lex.Error(fmt.Sprintf("integer literal %q is out of range", lit))
+		return ast.NewConst(ast.ConstNull)
+	}
+	return ast.NewInteger(lit)
+}
+
+// newNumeric returns an [ast.NumericNode] for lit. If lit does not fit a
+// float64 it records an error and returns a placeholder.
+func newNumeric(lex pathLexer, lit string) ast.Node {
+	if _, err := strconv.ParseFloat(lit, 64); err != nil {
+		lex.Error(fmt.Sprintf("numeric literal %q is out of range", lit))
+		return ast.NewConst(ast.ConstNull)
+	}
+	return ast.NewNumeric(lit)
+}
+
+// newRegex returns an [ast.RegexNode]. If the pattern or the flags are
+// invalid it records the error and returns expr as a placeholder.
+func newRegex(lex pathLexer, expr ast.Node, pattern, flags string) ast.Node {
+	node, err := ast.NewRegex(expr, pattern, flags)
+	if err != nil {
+		lex.Error(err.Error())
+		return expr
+	}
+	return node
 }
